@@ -61,6 +61,12 @@ parse_comp(const char *str, int *n_objs, comp_info_t *comp)
         return NULL;
     }
 
+    /* an empty object list, or one that ends with ',': fewer names would be stored than *n_objs announces */
+    if (end_obj == 0 || str[end_obj - 1] == ',') {
+        printf("Input Error: Invalid object list in <%s>\n", str);
+        return NULL;
+    }
+
     /*-------------------------------------------------------------------------
      * allocate the object list of names
      *-------------------------------------------------------------------------
@@ -325,6 +331,12 @@ parse_chunk(const char *str, int *n_objs, int32 *chunk_lengths, int *chunk_rank)
 
     if (end_obj == -1) { /* missing : */
         printf("Input Error: Invalid chunking input in <%s>\n", str);
+        return NULL;
+    }
+
+    /* an empty object list, or one that ends with ',': fewer names would be stored than *n_objs announces */
+    if (end_obj == 0 || str[end_obj - 1] == ',') {
+        printf("Input Error: Invalid object list in <%s>\n", str);
         return NULL;
     }
 
